@@ -99,6 +99,10 @@ pub struct SimNet {
     pub delivered_frames: HashMap<(Addr, Addr), i32>,
     /// (to, from, virtual time of the poll) for every poll that handed over >= 1 packet of `from`
     pub recv_log: Vec<(Addr, Addr, u64)>,
+    /// handshake bookkeeping: nonces issued by (requester, replier); matched round trips
+    pub issued: HashMap<(Addr, Addr), Vec<u32>>,
+    /// (requester, replier, matched count so far, virtual time of the poll)
+    pub matched_log: Vec<(Addr, Addr, u32, u64)>,
 }
 
 impl SimNet {
@@ -126,6 +130,8 @@ impl SimNet {
             track_frames: false,
             delivered_frames: HashMap::new(),
             recv_log: Vec::new(),
+            issued: HashMap::new(),
+            matched_log: Vec::new(),
         }
     }
 
@@ -140,6 +146,11 @@ impl SimNet {
         self.stats.sent[kind as usize] += 1;
         if let Some(s) = self.sniff.as_mut() {
             s.push((self.round - self.base, from, to, to_wire(msg)));
+        }
+        if kind == crate::wire::K_SYNC_REQ {
+            if let WBody::SyncRequest { random_request } = to_wire(msg).body {
+                self.issued.entry((from, to)).or_default().push(random_request);
+            }
         }
         if self.dead.contains(&to) || self.dead.contains(&from) {
             return;
@@ -239,6 +250,16 @@ impl SimNet {
         for p in out {
             self.stats.delivered[p.kind as usize] += 1;
             self.last_recv_us.insert((to, p.from), now);
+            if p.kind == crate::wire::K_SYNC_REP {
+                if let WBody::SyncReply { random_reply } = to_wire(&p.msg).body {
+                    let list = self.issued.entry((to, p.from)).or_default();
+                    if let Some(pos) = list.iter().position(|n| *n == random_reply) {
+                        list.remove(pos);
+                        let c = self.matched_log.iter().filter(|m| m.0 == to && m.1 == p.from).count() as u32 + 1;
+                        self.matched_log.push((to, p.from, c, now));
+                    }
+                }
+            }
             if self.recv_log.last() != Some(&(to, p.from, now)) {
                 self.recv_log.push((to, p.from, now));
             }
